@@ -80,6 +80,8 @@ pub enum Intent {
     WaitBestmove,
     /// GUI idles until the running search has polled `n` times (or answered)
     WaitPolls(u64),
+    /// any other command line, sent only while no bestmove is outstanding (e.g. `bench`)
+    Raw(String),
     Quit,
 }
 
